@@ -56,3 +56,35 @@ def fmt_diffs(diffs, limit=3):
 
 def is_amino_only(entries):
     return all(a.rec == "ATOM" and a.resn in pdbio.AMINO for a in pdbio.atoms_of(entries))
+
+
+TWIN_RANGE = 30000
+
+
+def twin_atoms(entries):
+    """Atoms of residues that share (model, chain, number) with a residue of another insertion code (finding F5)."""
+    by = {}
+    for (m, c, n, i, t), ats in pdbio.residues(entries):
+        by.setdefault((m, c, n), {}).setdefault(i, []).extend(ats)
+    out = []
+    for d in by.values():
+        if len(d) > 1:
+            for ats in d.values():
+                out.extend(ats)
+    return out
+
+
+def twin_sig(text, keys):
+    """'icode-twin' if the input has insertion-code twins and every given file index lies within 30 A of one."""
+    entries = pdbio.parse(text)
+    tw = twin_atoms(entries)
+    if not tw or not keys:
+        return None
+    atoms = pdbio.atoms_of(entries)
+    for k in keys:
+        if not isinstance(k, int) or k >= len(atoms):
+            return None
+        a = atoms[k]
+        if not any(pdbio.sq_dist(a, t) < TWIN_RANGE ** 2 for t in tw):
+            return None
+    return "icode-twin"
